@@ -7,6 +7,8 @@
 (*   cut-off / bump-along; tree rewrites gated off; code-gen analysis on)  *)
 (* Rules:                                                                  *)
 (*   rel.<variant>     a[k] # b[k] for some start offset k                 *)
+(*   rel.naive.string  the STRING entry point (prefix filter on the raw     *)
+(*                     string) differs from the naive scan                  *)
 (*   rel.spec          (exact records) a[k] # RegexSem.Find                *)
 (*   skip.live         a candidate search jumped over a position at which  *)
 (*                     an attempt succeeds: the SkipTo contract - a search *)
@@ -37,6 +39,8 @@ CheckCase(r, e, cs, ci) ==
   LET n == Len(cs.s)
       hasG == HasOp(r.p, "G")
       diff == {k \in 1..(n + 1) : ~SameReal(cs.a[k], cs.b[k])}
+      strdiff == {k \in 1..(n + 1) : ~SameReal(cs.str[k], cs.b[k])}
+      msbad == IF cs.ms = -1 THEN {0} ELSE IF (cs.ms = 1) # cs.b[IF r.rtl THEN n + 1 ELSE 1].ok THEN {0} ELSE {}
       spec == IF r.exact THEN {k \in 1..(n + 1) : ~SameRes(Find(e, cs.s, k - 1, -1, r.rtl), cs.a[k])} ELSE {}
       Live(pos, org) ==
         IF r.exact THEN Attempt(e, cs.s, pos, org, r.rtl).ok
@@ -46,6 +50,7 @@ CheckCase(r, e, cs, ci) ==
                  LET ev == cs.skips[k] IN
                  \E pos \in Skipped(ev[2], ev[3], ev[4] = 1, r.rtl) : pos >= 0 /\ pos <= n /\ Live(pos, ev[1])}
   IN  {<<"rel." \o r.variant, ci, k - 1>> : k \in diff}
+      \cup (IF r.variant = "naive" THEN {<<"rel.naive.string", ci, k - 1>> : k \in strdiff} \cup {<<"rel.naive.matchstring", ci, 0>> : k \in msbad} ELSE {})
       \cup {<<"rel.spec", ci, k - 1>> : k \in spec}
       \cup {<<"skip.live", ci, cs.skips[k][1]>> : k \in live}
 
